@@ -189,8 +189,8 @@ def units(tier):
     # ------------------------------------------------------------ LUBA / SCI send(): silent bus, answer, stale answers
     for gw in ("luba", "sci"):
         for vname, twice, rc in FLAG_VARIANTS:
-            for nstale in (0, 1, 2):
-                def r_ser(ctx, interp, fn, gw=gw, twice=twice, rc=rc, nstale=nstale):
+            for nstale, in_tx in ((0, False), (1, False), (2, False), (1, True), (2, True)):
+                def r_ser(ctx, interp, fn, gw=gw, twice=twice, rc=rc, nstale=nstale, in_tx=in_tx):
                     world = World(ctx, interp)
                     install(interp, world)
                     if ctx.native:
@@ -224,9 +224,11 @@ def units(tier):
                             q._answered = True
                             q.items.append(answer)
                     rawq.provider = bus_answers
-                    drv = ctx.new(drvcls, _connected=world.event(True, "connected"), transaction_lock=world.lock("transaction"),
+                    tlock = world.lock("transaction")
+                    tlock.held = in_tx      # inside a sequence the caller (run_sequence) already holds the transaction lock
+                    drv = ctx.new(drvcls, _connected=world.event(True, "connected"), transaction_lock=tlock,
                                   _protocol=proto)
-                    out = world.run(send, drv, cmd)
+                    out = world.run(send, drv, cmd, in_transaction=in_tx)
                     if out[0] == "blocked":
                         return
                     ctx.cover()
@@ -248,7 +250,7 @@ def units(tier):
                         return      # silence (the unit did not answer, or the answer timed out)
                     ctx.prove("answer-is-this-commands-own-never-a-stale-one", And(answered, raw._data == answer),
                               detail="stale answers queued before the command: %d" % nstale)
-                unit("%s/send/%s/stale=%d" % (gw, vname, nstale), r_ser)
+                unit("%s/send/%s/stale=%d%s" % (gw, vname, nstale, "/in-transaction" if in_tx else ""), r_ser)
     return U
 
 
@@ -257,7 +259,7 @@ META = {
     "bounds": {"commands": "abstract commands covering plain / send-twice / numeric / yes-no / generic answers with symbolic frames",
                "Tridonic": "every sequence of up to 4 well-formed reports (transmission echo, 8-bit value, no frame, framing "
                "error, loss of the gateway) for the command's sequence number; routing for two commands in flight",
-               "hasseb": "every status byte 1..3 and value, loss of the gateway", "LUBA/SCI": "0..2 stale answers queued before "
+               "hasseb": "every status byte 1..3 and value, loss of the gateway", "LUBA/SCI": "stand-alone sends and sends inside a transaction (late answer of an earlier command of the same sequence); 0..2 stale answers queued before "
                "the command, unit answering or silent, any timeout"},
     "assumptions": [
         "asyncio / os / transport primitives through the assumed contracts of pyvc/aio.py; reports are delivered by the "
